@@ -420,7 +420,9 @@ func (c *Client) send(dest net.Addr, msg *dhcpv6.Message) (<-chan *dhcpv6.Messag
 		close(done)
 
 		c.pendingMu.Lock()
-		if p, ok := c.pending[msg.TransactionID]; ok {
+		// Only remove our own entry: receiveLoop may already have retired
+		// it, and another call may have registered the same XID since.
+		if p, ok := c.pending[msg.TransactionID]; ok && p.done == done {
 			close(p.ch)
 			delete(c.pending, msg.TransactionID)
 		}
